@@ -393,8 +393,11 @@ def builder_histories(ctx):
             back, e2 = _try(lambda: lib.VmStack.deserialize(cell.begin_parse())) if cell is not None else (None, e)
             pb = None
             if back is not None:
-                x = back[1] if isinstance(vs[0], int) else back[0]
-                pb = x if isinstance(x, Builder) else (x[0] if hasattr(x, '__getitem__') else None)
+                try:
+                    x = back[1] if isinstance(vs[0], int) else back[0]
+                    pb = x if isinstance(x, Builder) else (x[0] if hasattr(x, '__getitem__') else None)
+                except Exception:          # e.g. a tuple that came back empty
+                    pb = None
             now = (b.bits.to01(), [r.hash.hex() for r in b.refs])
             got = (pb.bits.to01(), [r.hash.hex() for r in pb.refs]) if isinstance(pb, Builder) else None
             if got != now:
